@@ -128,6 +128,7 @@ type RunOut struct {
 
 var logicMsgs = []string{
 	"variable not declared",
+	"asset should respect pattern",
 	"tried to do an arithmetic operation with",
 	"the expression in monetary literal should be of type",
 	"send monetary all: the expression should be of type",
